@@ -33,14 +33,23 @@ def reg(L):
     return [T0 + i * U for i in range(L + 1)]
 
 
-def near(L):
+TINY = 2.0 ** -50
+
+
+def near(L, delta=DELTA):
     """lattice 0..L plus near-tie companions of the interior lattice points"""
     g = [T0]
     for i in range(1, L):
         t = T0 + i * U
-        g += ([t - DELTA, t] if i % 2 == 0 else [t, t + DELTA])
+        g += ([t - delta, t] if i % 2 == 0 else [t, t + delta])
     g.append(T0 + L * U)
     return g
+
+
+def tiny(L):
+    """near-tie grid with companions 2^-50 (a few ulp) away: catches absolute tolerances
+    down to ~1e-15"""
+    return near(L, TINY)
 
 
 def far(L):
@@ -51,7 +60,7 @@ def far(L):
 
 
 def grid_of(spec):
-    return {"reg": reg, "near": near, "far": far}[spec[0]](spec[1])
+    return {"reg": reg, "near": near, "far": far, "tiny": tiny}[spec[0]](spec[1])
 
 
 def as_grid(L_or_G):
